@@ -130,4 +130,107 @@ theorem equalCaseless_spec (ca ta cb tb : Bytes) (hza : ∀ x ∈ ca, x ≠ 0) (
     ((ca ++ 0 :: ta).length + 1) 0 ⟨by omega, by omega, by simp⟩ (by simp; omega)
   rw [hr, hp]
 
+/-! ### MHD_str_equal_caseless_n_ (both z-terminated, at most `maxlen` characters) -/
+
+theorem ceq_zero_left (y : UInt8) (h : y ≠ 0) : charsEqualCaseless 0 y = false := by
+  rw [charsEqualCaseless_iff]
+  have : ∀ n : Fin 256, n.val ≠ 0 → (toLower 0 == toLower (UInt8.ofNat n.val)) = false := by decide +kernel
+  have h2 := this ⟨y.toNat, y.toNat_lt⟩ (by
+    intro h0; apply h; rw [← ofNat_toNat_u8 y]; simp only at h0; rw [h0]; rfl)
+  simpa using h2
+
+theorem equalCaselessN_spec (ca ta cb tb : Bytes) (maxlen : Nat)
+    (hza : ∀ x ∈ ca, x ≠ 0) (hzb : ∀ x ∈ cb, x ≠ 0) :
+    equalCaselessN (ca ++ 0 :: ta) (cb ++ 0 :: tb) maxlen = .ok (ceqN maxlen ca cb) := by
+  unfold equalCaselessN
+  obtain ⟨r, hr, hp⟩ := iter_spec (equalCaselessNStep (ca ++ 0 :: ta) (cb ++ 0 :: tb) maxlen)
+    (fun i => i ≤ maxlen ∧ i ≤ ca.length ∧ i ≤ cb.length ∧ ceqN maxlen ca cb = ceqN (maxlen - i) (ca.drop i) (cb.drop i))
+    (fun i => ca.length - i) (fun r => r = ceqN maxlen ca cb)
+    (by
+      intro i ⟨him, hia, hib, hg⟩
+      unfold equalCaselessNStep
+      by_cases hlt : i < maxlen
+      · obtain ⟨k, hk⟩ : ∃ k, maxlen - i = k + 1 := ⟨maxlen - i - 1, by omega⟩
+        have hk' : maxlen - (i + 1) = k := by omega
+        have hda := drop_z ca ta i hia
+        have hdb := drop_z cb tb i hib
+        simp only [hlt, if_true]
+        cases hca : ca.drop i with
+        | nil =>
+          right
+          rw [hca, List.nil_append] at hda
+          obtain ⟨h1, _, _⟩ := getElem?_of_drop_eq_cons hda
+          cases hcb : cb.drop i with
+          | nil =>
+            rw [hcb, List.nil_append] at hdb
+            obtain ⟨h2, _, _⟩ := getElem?_of_drop_eq_cons hdb
+            simp only [rd_some h1, rd_some h2, bind_ok', if_true, pure_eq_ok]
+            exact ⟨_, rfl, by rw [hg, hca, hcb, hk]; rfl⟩
+          | cons y t' =>
+            rw [hcb, List.cons_append] at hdb
+            obtain ⟨h2, _, _⟩ := getElem?_of_drop_eq_cons hdb
+            have hy : y ≠ 0 := hzb y (mem_of_drop_eq_cons hcb)
+            simp only [rd_some h1, rd_some h2, bind_ok', hy, if_false, ceq_zero_left y hy, Bool.false_eq_true,
+              pure_eq_ok]
+            exact ⟨_, rfl, by rw [hg, hca, hcb, hk]; rfl⟩
+        | cons x t =>
+          rw [hca, List.cons_append] at hda
+          obtain ⟨h1, _, _⟩ := getElem?_of_drop_eq_cons hda
+          have hx : x ≠ 0 := hza x (mem_of_drop_eq_cons hca)
+          have hil : i < ca.length := by
+            by_cases h : i < ca.length
+            · exact h
+            · rw [List.drop_eq_nil_of_le (by omega)] at hca; simp at hca
+          have hca1 : ca.drop (i + 1) = t := by
+            have := List.drop_eq_getElem_cons hil
+            rw [this] at hca; injection hca
+          cases hcb : cb.drop i with
+          | nil =>
+            right
+            rw [hcb, List.nil_append] at hdb
+            obtain ⟨h2, _, _⟩ := getElem?_of_drop_eq_cons hdb
+            simp only [rd_some h1, rd_some h2, bind_ok', if_true, pure_eq_ok]
+            refine ⟨_, rfl, ?_⟩
+            rw [hg, hca, hcb, hk]; simp [ceqN, hx]
+          | cons y t' =>
+            rw [hcb, List.cons_append] at hdb
+            obtain ⟨h2, _, _⟩ := getElem?_of_drop_eq_cons hdb
+            have hy : y ≠ 0 := hzb y (mem_of_drop_eq_cons hcb)
+            have hib' : i < cb.length := by
+              by_cases h : i < cb.length
+              · exact h
+              · rw [List.drop_eq_nil_of_le (by omega)] at hcb; simp at hcb
+            have hcb1 : cb.drop (i + 1) = t' := by
+              have := List.drop_eq_getElem_cons hib'
+              rw [this] at hcb; injection hcb
+            simp only [rd_some h1, rd_some h2, bind_ok', hy, if_false]
+            by_cases he : charsEqualCaseless x y = true
+            · left
+              simp only [he, if_true, pure_eq_ok]
+              refine ⟨_, rfl, ⟨by omega, by omega, by omega, ?_⟩, by omega⟩
+              rw [hg, hca, hcb, hk, hca1, hcb1, hk']; simp [ceqN, he]
+            · right
+              simp only [he, if_false, pure_eq_ok, Bool.false_eq_true]
+              simp only [Bool.not_eq_true] at he
+              refine ⟨_, rfl, ?_⟩
+              rw [hg, hca, hcb, hk]; simp [ceqN, he]
+      · right
+        simp only [hlt, if_false, pure_eq_ok]
+        refine ⟨_, rfl, ?_⟩
+        have : maxlen - i = 0 := by omega
+        rw [hg, this]; rfl)
+    ((ca ++ 0 :: ta).length + 2) 0 ⟨by omega, by omega, by omega, by simp⟩ (by simp; omega)
+  rw [hr, hp]
+
+/-- `ceqN n a b` is caseless equality of the first `n` characters -/
+theorem ceqN_eq (n : Nat) (a b : Bytes) : ceqN n a b = ceqBytes (a.take n) (b.take n) := by
+  induction n generalizing a b with
+  | zero => simp [ceqN, listEq]
+  | succ n ih =>
+    cases a with
+    | nil => cases b <;> simp [ceqN, listEq]
+    | cons x s => cases b with
+      | nil => simp [ceqN, listEq]
+      | cons y t => simp [ceqN, listEq, ih]
+
 end Mhd.Str
